@@ -275,7 +275,8 @@ class P:
                 while depth:
                     y = self.next(); depth += (y == ('op', '[')) - (y == ('op', ']'))
                 continue
-            if self.isid('debug_assert') or self.isid('debug_assert_eq') or self.isid('debug_assert_ne'):
+            if self.isid('debug_assert') or self.isid('debug_assert_eq') or self.isid('debug_assert_ne') or \
+                    (self.isid('assert') and self.isop('!', 1)):
                 self.next(); self.expect('!'); self.expect('('); depth = 1
                 while depth:
                     y = self.next(); depth += (y == ('op', '(')) - (y == ('op', ')'))
@@ -301,6 +302,19 @@ class P:
                 name = self.next()[1]; op = self.next()[1]; e = self.expr(); self.expect(';')
                 out.append(('assign', name, None if op == '=' else op[:-1], e)); continue
             e = self.expr()
+            if self.isop('='):
+                # assignment to a place: x[i] = e / x.limbs[i] = e / x[i].0 = e / x.limbs[i].0 = e
+                self.next(); rhs = self.expr(); self.expect(';')
+                pl = e
+                if pl[0] == 'field' and pl[2] == '0':
+                    pl = pl[1]
+                if pl[0] == 'index':
+                    base = pl[1]
+                    if base[0] == 'field' and base[2] == 'limbs':
+                        base = base[1]
+                    if base[0] == 'var':
+                        out.append(('iassign', base[1], pl[2], rhs)); continue
+                raise TErr('unsupported assignment target')
             if self.isop(';'):
                 self.next(); raise TErr('expression statement not supported')
             out.append(('ret', e))
